@@ -238,11 +238,12 @@ class C08(core.Property):
             "arriving at a Server/ShiftedServer in bursts on one nanosecond through forwarder chains of 0–3 hops, service "
             "times on a 0.25 s grid, concurrency 1–3, queue capacity 0–3 or unbounded, FIFO/LIFO/priority queue; family pipew: the same "
             "pipeline with the Server built on every ConcurrencyModel — FixedConcurrency, DynamicConcurrency (min 1–2, max 3–6 or unbounded, 1–6 "
-            "set_limit/scale_up/scale_down calls by a controller entity at instants before, between — off the 0.25 s grid — and after the traffic, "
-            "requested limits 0–9 so that both clamps bite), WeightedConcurrency (pool 1–41 units, per-request metadata.weight 1–5, in lifted mode up to pool+1) — ≤10 requests, "
-            "judged in capacity units; restricted mode (default, HV_C08_WEIGHT_LIFT unset): weighted pools use one common weight dividing the pool "
-            "or a pool as large as all weights together, limits are raised only while nothing can wait; lifted mode adds arbitrary weight mixes up to "
-            "pool+1 on FIFO and raises at any instant (needs fixes/C08-weighted-head-admission.diff and C08-dynamic-scale-up-strand.diff); a case is "
+            "set_limit/scale_up/scale_down calls by a controller entity at instants before, between — on and off the 0.25 s grid, also beside "
+            "waiting work — and after the traffic, requested limits 0–9 so that both clamps bite), WeightedConcurrency (pool 1–41 units, per-request "
+            "metadata.weight 1–7: one common weight dividing the pool, a pool as large as all weights together, or arbitrary mixes up to pool+1 on "
+            "every queue policy, where a head dequeued on one free unit is rejected-and-counted by the worker) — ≤10 requests, judged in capacity "
+            "units; switches HV_C08_WEIGHT_LIFT=0 (no mixes) / HV_C08_DYN_LIFT=0 (no raises beside waiting work, for trees before d187c1c) / "
+            "HV_C08_ADMIT=1 (tree with the design suggestion fixes/C08-weighted-head-admission.diff: model switch admission on); a case is "
             "non-trivial when it has a pop of a non-empty queue (policy) or a request that waited (pipe); distinct = distinct case content")
     trusted_base = [
         "hv/props/c08.py adapters (drive the real policy / Simulation objects, canonical transcript)",
@@ -269,13 +270,18 @@ class C08(core.Property):
         "fifo_start_order: Setting with c.pol.kind = fifo, any limit; fifo_end_to_end: additionally concurrency limit 1 (initial state { limit := 1 })",
         "pipe theorems: Sched — every QueueDispatchedEvent is delivered after the payload it was created behind (engine FIFO tie order, C01); "
         "theorem dispatched_before_payload_breaks shows the hypothesis is necessary; the correspondence run reports any schedule violating it as a disagreement-free judge violation",
-        "PipeW part A (used_eq_in_service_weight, start_takes_weight, finish_returns_weight, start_never_exceeds_limit): every configuration, variant and "
+        "PipeW part A (used_eq_in_service_weight, start_takes_weight, finish_returns_weight, start_never_exceeds_limit, rejected_only_when_not_fitting, "
+        "rejected_is_counted_and_takes_nothing, fitting_item_is_started): every configuration, both switches and every "
         "schedule, no hypothesis; in_service_weight_le_limit: NoLower — no set_limit call of the schedule lowers the limit (after a lowering the items "
         "already in service may exceed it, which DynamicConcurrency documents; the examples show the hypothesis is necessary)",
-        "PipeW part B (final_winv, no_accepted_item_discarded, item_state_partition_count, no_strand): Setting = variant repaired (HEAD + the two pending "
-        "patches), Sched c w0 — a QueueDispatchedEvent is delivered after its payload; the limit is not lowered while a dequeued item is on its way to the "
-        "worker (same-instant race, cf. known finding limit-lowered-in-same-instant); with a LIFO/priority queue every request takes the same number w0 of "
-        "units (a FIFO head is stable under arrivals, a LIFO/priority head is not: a lighter arrival behind a heavy head would wait without a notify)",
+        "PipeW part B, the code as it is (final_dinv, item_state_partition_count, no_strand, no_waiting_item_fits): SettingD = switches admission off, wake on "
+        "(/repo HEAD since d187c1c), SchedD — a QueueDispatchedEvent is delivered after its payload; no hypothesis on weights, queue policy or limit "
+        "changes. C08 is read as: a request dequeued on one free unit whose weight does not fit is rejected-and-counted by the worker (fifth "
+        "population `rejected`), which the statement allows because it does not confine rejection to the offer",
+        "PipeW design-suggestion variant (admission_final_winv, admission_no_accepted_item_discarded, admission_item_state_partition_count, "
+        "admission_no_strand, no_poll_granted_without_capacity_for_head): Setting = admission on, wake on (HEAD + fixes/C08-weighted-head-admission.diff), "
+        "Sched c w0 — dispatched-after-payload; the limit is not lowered while a dequeued item is on its way to the worker; with a LIFO/priority queue "
+        "every request takes the same number w0 of units (a lighter arrival behind a heavy head would wait without a notify)",
     ]
     partial_theorems = {
         "HappyModel.C08.held_le_capacity": "all policies constructed with `capacity`; FairQueue's bound max_flows*per_flow_capacity is only checked by the judge",
@@ -820,18 +826,23 @@ pipe = types.SimpleNamespace(generate=pipe_generate, run_impl=pipe_run_impl, mod
 # `Server` over every ConcurrencyModel of components/server/concurrency.py, judged in capacity units
 # (model `HappyModel/C08/PipeW.lean`, judge `PipeWSpec.lean`).
 #
-# W_LIFT: unmodified /repo (a) dequeues a head-of-queue request on `has_capacity()` = one free unit and
-# discards it when `acquire(weight)` then fails (fixes/C08-weighted-head-admission.diff) and (b) does not
-# tell the driver about a raised DynamicConcurrency limit (fixes/C08-dynamic-scale-up-strand.diff).
-# Until both patches are applied the generator stays clear of the two triggers:
-#   restricted (default)  weighted pools: either one common weight w with capacity a multiple of w
-#                         (so has_capacity(1) ⇔ has_capacity(w)) or a pool at least as large as all weights
-#                         together; dynamic limits: lowered at any off-grid instant, raised only while
-#                         nothing can be waiting (before the first arrival / after the last possible finish);
-#   lifted (HV_C08_WEIGHT_LIFT=1)  arbitrary weight mixes up to capacity+1 (FIFO; LIFO/priority keep a common
-#                         weight: a lighter request arriving behind a heavy head is a residual gap of the patch),
-#                         limits raised at any instant, also on the arrival/completion grid.
-W_LIFT = os.environ.get("HV_C08_WEIGHT_LIFT", "0") == "1"
+# Three independent switches (environment, read once):
+#   HV_C08_WEIGHT_LIFT (default "1")  weighted pools get arbitrary weight mixes up to capacity+1 on every queue policy.
+#       /repo dequeues the head on `has_capacity()` = one free unit; when `acquire(weight)` then fails the Server
+#       rejects the request and counts it in `requests_rejected`.  The coordinator's reading of C08: that is a
+#       rejected-and-counted outcome (the statement does not confine rejection to the offer), so the model mirrors it
+#       and the judge checks that it is counted, justified (the item really does not fit) and free of charge.
+#       "0" = only pools where it cannot happen (one common weight dividing the pool, or a pool as large as all weights).
+#   HV_C08_DYN_LIFT (default "1")  DynamicConcurrency limits are raised at any instant, also beside waiting work
+#       (repaired in /repo by d187c1c: the Server notifies its driver).  "0" = raises only while nothing can wait,
+#       for trees without that commit.
+#   HV_C08_ADMIT (default "0")  "1" = the tree carries the design suggestion fixes/C08-weighted-head-admission.diff:
+#       model switch `admission` on (a non-fitting head stays queued, nothing is rejected after dequeue); LIFO / priority
+#       pools then keep a common weight (a lighter arrival behind a heavy head gets no notify) and limits are only
+#       lowered off the arrival/completion grid.
+W_LIFT = os.environ.get("HV_C08_WEIGHT_LIFT", "1") == "1"
+DYN_LIFT = os.environ.get("HV_C08_DYN_LIFT", "1") == "1"
+ADMISSION = os.environ.get("HV_C08_ADMIT", "0") == "1"
 HALF = Q // 2           # controller instants: odd multiples are off the arrival/completion grid
 
 
@@ -851,8 +862,7 @@ def pipew_limits(case):
     return out
 
 
-def pipew_generate(rng, i, tier, lift=None):
-    lift = W_LIFT if lift is None else lift
+def pipew_generate(rng, i, tier):
     conc = rng.choice(["weighted", "weighted", "weighted", "dynamic", "dynamic", "fixed"])
     kind = rng.choice(["fifo", "fifo", "fifo", "lifo", "prio"])
     cap = rng.choice([None, None, None, 0, 1, 2, 3])
@@ -872,9 +882,7 @@ def pipew_generate(rng, i, tier, lift=None):
     case = {"family": "pipew", "conc": conc, "policy": {"kind": kind, "cap": cap}, "reqs": reqs,
             "svcs": [rng.choice(svc_pool) for _ in range(n)], "lo": 1, "hi": None, "ctl": []}
     if conc == "weighted":
-        style = rng.choice(["common", "common", "ample", "mixed"]) if lift else rng.choice(["common", "common", "ample"])
-        if style == "mixed" and kind != "fifo":
-            style = "common"
+        style = rng.choice(["common", "ample", "mixed", "mixed"]) if W_LIFT else rng.choice(["common", "common", "ample"])
         if style == "common":
             w = rng.choice([1, 2, 2, 3, 5])
             case["limit"] = w * rng.choice([1, 1, 2, 3])
@@ -908,7 +916,11 @@ def pipew_generate(rng, i, tier, lift=None):
             op = rng.choice(["set", "up", "down", "down", "up"])
             arg = rng.choice([0, 1, 2, 3, 5, 9]) if op == "set" else rng.choice([1, 1, 2, 4])
             where = rng.random()
-            if where < 0.5:
+            if where < 0.25:
+                t2 = 2 * rng.choice(reqs)[0] + rng.choice([1, 1, 3, 5])         # shortly after an arrival: likely beside waiting work
+                if rng.random() < 0.7:
+                    op, arg = "up", rng.choice([1, 1, 2])
+            elif where < 0.5:
                 t2 = 2 * rng.randrange(first // 2, quiet // 2 + 1) + 1          # off the grid, inside the busy stretch
             elif where < 0.65:
                 t2 = rng.randrange(0, max(1, first))                            # before the first arrival
@@ -918,19 +930,19 @@ def pipew_generate(rng, i, tier, lift=None):
                 t2 = 2 * (rng.choice(reqs)[0] + rng.choice([0, 1, 2, 4]))       # on the grid: beside arrivals / completions
             ctl.append([t2, op, arg])
         case["ctl"] = ctl
-    return pipew_restrict(case) if not lift else pipew_no_grid_lowering(case)
+    return pipew_norm(case)
 
 
-def pipew_restrict(case):
-    """restricted mode: keep a case clear of the two open /repo defects (see W_LIFT) — drop controller calls
-    that raise the limit while a request may be waiting (and lowerings on the grid, where they can race with a
-    granted poll: known finding `limit-lowered-in-same-instant`); weighted pools: a common weight that divides
-    the capacity, or a pool as large as all weights together"""
+def pipew_norm(case):
+    """bring a case inside what the switches allow (see W_LIFT / DYN_LIFT / ADMISSION)"""
     c = dict(case)
     if case["conc"] == "weighted":
         ws = {r[3] for r in case["reqs"]}
-        if not (len(ws) == 1 and case["limit"] % next(iter(ws)) == 0):
+        common = len(ws) == 1 and case["limit"] % next(iter(ws)) == 0
+        if not W_LIFT and not common:
             c["limit"] = max(case["limit"], sum(r[3] for r in case["reqs"]))
+        elif ADMISSION and len(ws) > 1 and case["policy"]["kind"] != "fifo":
+            c["policy"] = dict(case["policy"], kind="fifo")
         return c
     if case["conc"] != "dynamic" or not case.get("ctl"):
         return c
@@ -940,22 +952,8 @@ def pipew_restrict(case):
     while True:
         c["ctl"] = keep
         bad = [[t2, op, n] for t2, op, n, _req, old, new in pipew_limits(c)
-               if (new > old and first <= t2 < quiet) or (new < old and t2 % 2 == 0)]
-        if not bad:
-            return c
-        keep.remove(bad[0])
-
-
-def pipew_no_grid_lowering(case):
-    """lifted mode still keeps lowerings off the arrival/completion grid: a limit lowered in the instant of a
-    granted poll is the protocol gap already filed as known finding `limit-lowered-in-same-instant`"""
-    if case["conc"] != "dynamic" or not case.get("ctl"):
-        return case
-    c = dict(case)
-    keep = [list(x) for x in case["ctl"]]
-    while True:
-        c["ctl"] = keep
-        bad = [[t2, op, n] for t2, op, n, _req, old, new in pipew_limits(c) if new < old and t2 % 2 == 0]
+               if (not DYN_LIFT and new > old and first <= t2 < quiet)      # a raise while a request may be waiting
+               or ((ADMISSION or not DYN_LIFT) and new < old and t2 % 2 == 0)]  # a lowering beside a granted poll
         if not bad:
             return c
         keep.remove(bad[0])
@@ -1132,7 +1130,8 @@ def pipew_run_impl(case):
 
 def pipew_header(case, variant):
     pol = case["policy"]
-    return (f"{variant} {case['conc']} {case.get('lo', 1)} {_opt(case.get('hi'))} {case['limit']} "
+    wake = "1" if variant == "repaired" else "0"       # "current" = a tree without d187c1c
+    return (f"{wake} {'1' if ADMISSION else '0'} {case['conc']} {case.get('lo', 1)} {_opt(case.get('hi'))} {case['limit']} "
             f"{pol['kind']} {_opt(pol['cap'])}")
 
 
@@ -1145,10 +1144,6 @@ def pipew_model_block(case, variant):
 
 def pipew_judge_block(case, impl_out):
     return ("judge-pipew " + pipew_header(case, "repaired"), [l for l in impl_out if l])
-
-
-def pipew_norm(case):
-    return pipew_no_grid_lowering(case) if W_LIFT else pipew_restrict(case)
 
 
 def pipew_shrink(case):
@@ -1236,12 +1231,19 @@ THEOREMS: list[str] = [
     "HappyModel.C08.PipeW.finish_returns_weight",
     "HappyModel.C08.PipeW.start_never_exceeds_limit",
     "HappyModel.C08.PipeW.in_service_weight_le_limit",
-    "HappyModel.C08.PipeW.final_winv",
-    "HappyModel.C08.PipeW.no_accepted_item_discarded",
+    "HappyModel.C08.PipeW.final_dinv",
     "HappyModel.C08.PipeW.item_state_partition_count",
-    "HappyModel.C08.PipeW.no_poll_granted_without_capacity_for_head",
     "HappyModel.C08.PipeW.no_strand",
-    "HappyModel.C08.PipeW.weighted_head_discarded_current",
+    "HappyModel.C08.PipeW.no_waiting_item_fits",
+    "HappyModel.C08.PipeW.rejected_only_when_not_fitting",
+    "HappyModel.C08.PipeW.rejected_is_counted_and_takes_nothing",
+    "HappyModel.C08.PipeW.fitting_item_is_started",
+    "HappyModel.C08.PipeW.admission_final_winv",
+    "HappyModel.C08.PipeW.admission_no_accepted_item_discarded",
+    "HappyModel.C08.PipeW.admission_item_state_partition_count",
+    "HappyModel.C08.PipeW.admission_no_strand",
+    "HappyModel.C08.PipeW.no_poll_granted_without_capacity_for_head",
+    "HappyModel.C08.PipeW.weighted_head_rejected_and_counted",
     "HappyModel.C08.PipeW.scale_up_strands_current",
 ]
 C08.theorems = THEOREMS + indus.THEOREMS
